@@ -603,7 +603,7 @@ def _check_shadow_lambda(run: Run, ctx, m, vl: FuncInfo, prop: str) -> None:
         run.check(ok, rule_d, vl, vl.node, "shadow frame pushed before and popped after the body is visited, on every path", "the shadow frame is not pushed before / popped after the visit of the lambda body on every path")
     # R3e: capture avoidance - the binder must be renamed (fresh) while substitutions are pending
     renames = any(isinstance(c.func, ast.Name) and c.func.id in ("arg_name", "make_args_unique") for c in calls_in(vl))
-    run.check(renames, rule_e, vl, vl.node, "binders are renamed (or arguments proved closed) before substituting underneath them", "visit_Lambda keeps the lambda's own parameter names while substitutions are pending: a free name of a substituted argument that equals a parameter of this nested lambda is captured by it", "alpha-rename the parameters with fresh names (as make_args_unique does) before visiting the body")
+    run.check(renames, rule_e, vl, vl.node, "binders are renamed (or arguments proved closed) before substituting underneath them", "visit_Lambda keeps the lambda's own parameter names while substitutions are pending: a free name of a substituted argument that equals a parameter of this nested lambda is captured by it", "alpha-rename the parameters with fresh names (as make_args_unique does) before visiting the body", key="binder kept while substitutions are pending")
 
 
 def _outer_stmt(call: ast.Call, w: ast.With):
